@@ -176,6 +176,45 @@ def run(tier, seed):
         res = core.run_shards(_shard_entry, PROP, tier, seed, profile=profile, budget_s=budget)
         v.merge(res)
         v.stats["shards_" + profile] += len(res)
+    if tier == "thorough":
+        # sanitizer stage: the same workload on an AddressSanitizer build (nightly -Zsanitizer=address) and under valgrind
+        # memcheck (release build).  A report aborts the driver, which the crash monitor sees as process death.
+        import glob as _glob
+        import os as _os
+        import shutil as _sh
+        from .. import build as _b
+        _sh.rmtree(_os.path.join(_b.TARGET, "sanitizer"), ignore_errors=True)
+        for prof, ns, bud in (("asan", 16, 60), ("valgrind", 16, 60)):
+            try:
+                res = core.run_shards(_shard_entry, PROP, "quick", seed + 17, nshards=ns, profile=prof, budget_s=bud)
+                v.merge(res)
+                v.stats["frames_" + prof] += sum(r.get("evaluations", 0) for r in res)
+            except Exception as e:
+                v.notes.append("%s stage not run: %r" % (prof, e))
+        logs = _glob.glob(_os.path.join(_b.TARGET, "sanitizer", "*"))
+        reports = [p for p in logs if _os.path.getsize(p) > 0]
+        v.extra["sanitizer_reports"] = len(reports)
+        if reports:
+            v.extra["sanitizer_report_excerpt"] = open(reports[0], errors="replace").read()[:3000]
+    if tier == "thorough":
+        # source-coverage evidence (never a verdict): which regions of each anchored file did the monitors see executed?
+        import glob
+        import os
+        import shutil
+        from .. import build
+        try:
+            shutil.rmtree(os.path.join(build.TARGET, "profraw"), ignore_errors=True)
+            res = core.run_shards(_shard_entry, PROP, "quick", seed, nshards=8, profile="cov", budget_s=40)
+            v.merge(res)
+            v.stats["coverage_run_frames"] += sum(r.get("evaluations", 0) for r in res)
+            cov = build.coverage_report(os.path.join(build.TARGET, "profraw"))
+            if cov:
+                v.extra["source_region_coverage"] = cov
+                v.extra["source_region_coverage_total"] = {
+                    "regions": sum(c["regions"] for c in cov.values()), "regions_covered": sum(c["regions_covered"] for c in cov.values())}
+            shutil.rmtree(os.path.join(build.TARGET, "profraw"), ignore_errors=True)
+        except Exception as e:      # coverage is evidence only: never fail the check because of it
+            v.notes.append("coverage evidence not produced: %r" % (e,))
     sites = sorted(set(x["key"] for x in v.violations))
     v.extra["distinct_panic_sites"] = len([s for s in sites if s.startswith("panic:")])
     v.extra["configs_covered"] = len(v.extra.get("configs_run", {}))
